@@ -39,7 +39,7 @@ multiscale (the linear family as Jacobians: `Properties/C01L.lean`, NaiveLinear:
 UMNN; image-shaped coupling inputs (`S > 1`) have the left-fold form of the log-det but no Jacobian statement; bounded splines are
 covered strictly inside bins (cubic and RQ-with-tails also at knots), not at the end-points of the box; per-element derivative
 laws inside layers are discharged for affine, additive and RQ(-tails) elements here and for quadratic / cubic / linear ones in
-`Properties/C01L.lean` (forward pass; knots excluded for quadratic and linear);
+`Properties/C01L.lean` (forward pass; knots excluded for quadratic and linear; inverse pass of coupling layers: `Properties/C01V.lean`);
 Fréchet differentiability of a row map through a conditioner is a hypothesis, discharged for constant / affine conditioners and
 (`Properties/C03ND.lean`) for MADE with a smooth activation in the affine autoregressive layer — not for ReLU networks.
 Arrays are read with `getD`: a conditioner output of the wrong size is read as zeros where PyTorch raises.
